@@ -25,7 +25,7 @@ class Run:
         self.hir = ctx.anchor_hir(LSR)
         self.ps = ctx.prog.fns[LSR]["params"]
 
-    def run(self, mode, order=(), asc=(), out_fail_at=None, out_fail="pipe", group_values=None, buffered_rows=("r1", "r2", "r3"), group_fields=("g",)):
+    def run(self, mode, order=(), asc=(), out_fail_at=None, out_fail="pipe", group_values=None, buffered_rows=("r1", "r2", "r3"), group_fields=("g",), limit=0):
         """mode: "grouped" | "aggregate" | "buffered" | "streamed".
         group_values: {group key tuple: {column tag: value}} for the grouped mode (value per selected column).
         out_fail_at: index of the standard-output operation that fails (None: none).
@@ -39,7 +39,7 @@ class Run:
         for k, vals in group_values.items():
             dict.__setitem__(parts, tuple(k), [interp.HMap({"__part": k})])
         q = {"expr": interp.NONE, "fields": [tagged(t) for t in select], "ordering_fields": [tagged(t) for t in order], "ordering_asc": list(asc),
-             "grouping_fields": [tagged(t) for t in group_fields] if mode == "grouped" else [], "roots": [], "limit": 0}
+             "grouping_fields": [tagged(t) for t in group_fields] if mode == "grouped" else [], "roots": [], "limit": limit}
         selfv = {"query": q, "results_writer": {"__rw": True}, "output_buffer": {"__ob": True}, "raw_output_buffer": [interp.HMap({"__part": "all"})],
                  "partitioned_output_buffer": parts, "config": {"debug": False}, "error_count": 0, "found": len(buffered_rows), "dir_queue": [],
                  "hgignore_filters": [], "dockerignore_filters": [], "visited_inodes": set(), "current_follow_symlinks": False}
@@ -210,6 +210,17 @@ def output_phase(ctx):
         ctx.obligation(ok)
         if not ok:
             bad("groups/framing", "group rows are written between header and footer, separated like any other rows; output %s, %d separators" % (o, len(seps)))
+        # (4b) the parser's limit (explicit, or the implicit 1 of a select list without columns such as `count(*)`) bounds the rows
+        # found by the walk, not the group rows: every group is written whatever query.limit is
+        for lim in (1, 2):
+            got, ev = run.run("grouped", group_values=gv, group_fields=("g", "h"), limit=lim)
+            n += 1
+            rows = [e for e in ev if e[0] == "write_row"]
+            ok = len(rows) == len(gv)
+            ctx.obligation(ok)
+            if not ok:
+                bad("groups/limit", "with query.limit = %d only %d of %d groups are written: `count(*) .. group by ext` carries the implicit limit 1 of a select "
+                    "list without columns, so the groups must not be cut by it" % (lim, len(rows), len(gv)))
         # (5) ordering of group rows: numbers by value, text by text, ascending a-vs-b and descending b-vs-a, keys in order
         for order, asc, want in ((("a",), (True,), ["2", "10", "10"]), (("a",), (False,), ["10", "10", "2"]),
                                  (("b",), (True,), ["x", "x", "y"]), (("b",), (False,), ["y", "x", "x"]),
